@@ -32,6 +32,9 @@ func init() {
 		Mutant{"or-with-complement", bf, "c.Elems[i] |= o.Elems[i]", "c.Elems[i] |= ^o.Elems[i]", "padding-clean tm2/pkg/bitarray.(*BitArray).Or"},
 		Mutant{"setindex-bound-dropped", bf, "func (bA *BitArray) setIndex(i int, v bool) bool {\n\tif i >= bA.Bits || i/64 >= len(bA.Elems) {", "func (bA *BitArray) setIndex(i int, v bool) bool {\n\tif i/64 >= len(bA.Elems) {", "padding-clean tm2/pkg/bitarray.(*BitArray).setIndex"},
 		Mutant{"bitarray-unmarshal-nil-result", bf, "if bA2 == nil {\n\t\t// Treat it as if we encountered the case: b == \"null\"", "if bA2 == nil && numBits < 0 {\n\t\t// Treat it as if we encountered the case: b == \"null\"", "maybe-nil-result tm2/pkg/bitarray.(*BitArray).UnmarshalJSON"},
+		Mutant{"refix-bytes-nil-guard-dropped", bf, "func (bA *BitArray) Bytes() []byte {\n\tif bA == nil {\n\t\treturn nil\n\t}\n", "func (bA *BitArray) Bytes() []byte {\n", "nil-guard tm2/pkg/bitarray.(*BitArray).Bytes"},
+		Mutant{"refix-not-mask-dropped", bf, "c.Elems[len(c.Elems)-1] &= (uint64(1) << uint(rem)) - 1", "_ = rem", "padding-clean tm2/pkg/bitarray.(*BitArray).not"},
+		Mutant{"refix-compact-empty-json", cf, "\tif bA2 == nil {\n\t\t// Zero bits", "\tif bA2 == nil && numBits < 0 {\n\t\t// Zero bits", "maybe-nil-result tm2/pkg/crypto/multisig/bitarray.(*CompactBitArray).UnmarshalJSON"},
 		Mutant{"json-symbol-drift", bf, "bits.WriteString(`x`)", "bits.WriteString(`X`)", "json-alphabet"},
 		Mutant{"compact-json-symbol-drift", cf, "if bits[i] == 'x' {", "if bits[i] == '_' {", "json-alphabet"},
 	)
@@ -348,27 +351,30 @@ func c48CleanStore(f *engine.Fn, as *ast.AssignStmt, named *types.Named) (bool, 
 		if site == nil {
 			return false
 		}
-		for _, gt := range g.Gates(site) {
-			if gt.OnTrue {
+		// some fact at the store says `index < X.Bits` / `index < X.Size()`; the test may be
+		// written inline, negated with an early return, or live in a one-line bool helper
+		for _, ft := range cjFactsAt(f, site) {
+			x, op, y, ok := cjCmpFact(ft)
+			if !ok {
 				continue
 			}
-			for _, a := range engine.Conjuncts(gt.Cond, token.LOR) {
-				b, ok := ast.Unparen(a).(*ast.BinaryExpr)
-				if !ok || b.Op != token.GEQ {
-					continue
+			if op == token.GTR {
+				x, y, op = y, x, token.LSS
+			}
+			if op != token.LSS {
+				continue
+			}
+			if _, isVar := engine.ObjOf(ft.Fn.Info(), x).(*types.Var); !isVar {
+				continue
+			}
+			switch yy := ast.Unparen(y).(type) {
+			case *ast.SelectorExpr:
+				if yy.Sel.Name == "Bits" {
+					return true
 				}
-				if _, isParam := engine.ObjOf(info, b.X).(*types.Var); !isParam {
-					continue
-				}
-				switch y := ast.Unparen(b.Y).(type) {
-				case *ast.SelectorExpr:
-					if y.Sel.Name == "Bits" {
-						return true
-					}
-				case *ast.CallExpr:
-					if se, ok := y.Fun.(*ast.SelectorExpr); ok && se.Sel.Name == "Size" {
-						return true
-					}
+			case *ast.CallExpr:
+				if se, ok := yy.Fun.(*ast.SelectorExpr); ok && se.Sel.Name == "Size" {
+					return true
 				}
 			}
 		}
@@ -392,6 +398,23 @@ func c48CleanStore(f *engine.Fn, as *ast.AssignStmt, named *types.Named) (bool, 
 			// conversion
 			if tv, ok := info.Types[x.Fun]; ok && tv.IsType() && len(x.Args) == 1 {
 				return eval(x.Args[0], depth+1)
+			}
+			// a pure one-line helper computing a single-bit mask: `return T(1) << k`
+			if st := f.SiteOf(x); st != nil {
+				if o, _ := st.Callee.(*types.Func); o != nil {
+					if h := f.Prog.FnOf(o); h != nil && len(h.Body.List) == 1 {
+						if r, ok := h.Body.List[0].(*ast.ReturnStmt); ok && len(r.Results) == 1 {
+							if b, ok := ast.Unparen(r.Results[0]).(*ast.BinaryExpr); ok && b.Op == token.SHL {
+								if k, ok := cjConstOf(h.Info(), ast.Unparen(c48StripConv(h.Info(), b.X))); ok && k == 1 {
+									if sizeGuarded() {
+										return true, ""
+									}
+									return false, "single-bit store is not gated by `index < size` → may set a padding bit"
+								}
+							}
+						}
+					}
+				}
 			}
 		case *ast.UnaryExpr:
 			if x.Op == token.XOR {
